@@ -434,7 +434,12 @@ end Adsb.Gen
         cprfn = rust2lean.generate_cpr(read)
     except rust2lean.Unsupported as e4:
         cprfn = stub(e4).replace("import Adsb.MiniRust", "import Adsb.Cpr").replace("source_outside_translated_fragment", "cpr_outside_translated_fragment")
-    for name, txt in (("Fns.lean", fns), ("CrcFn.lean", crcfn), ("Formulas.lean", formulas), ("CprFn.lean", cprfn)):
+    # adsb.rs AirborneVelocity::calculate + Sign::value (Gen/VelFn.lean)
+    try:
+        velfn = rust2lean.generate_velocity(read)
+    except rust2lean.Unsupported as e5:
+        velfn = stub(e5).replace("import Adsb.MiniRust", "import Adsb.Velocity").replace("source_outside_translated_fragment", "velocity_outside_translated_fragment")
+    for name, txt in (("Fns.lean", fns), ("CrcFn.lean", crcfn), ("Formulas.lean", formulas), ("CprFn.lean", cprfn), ("VelFn.lean", velfn)):
         pf = os.path.join(OUT, name)
         if not os.path.exists(pf) or open(pf).read() != txt: open(pf, "w").write(txt)
     # bit offsets of the plain deku structs (Gen/Layout.lean), with the widths of the custom readers taken from the translated functions
